@@ -1,0 +1,36 @@
+//go:build verif
+
+package session
+
+// Contracts for the govc verifier (/verif). This file contains comments only
+// and is compiled only with -tags verif; it adds no declarations.
+//
+//@ spec func succ(v int) int = v == 65535 ? 1 : v + 1
+//@ spec func idview(x int) int = x == 0 ? 1 : x
+//@ spec func iter(v0 int, k int) int = k <= 0 ? v0 : succ(iter(v0, k-1))
+//
+//@ guarded_by IDCounter.mutex: IDCounter.next
+//
+//@ func (c *IDCounter) NextID() (id packet.ID)
+//@   requires [unlocked] held[c.mutex] == 0
+//@   ensures  [nonzero]  id != 0
+//@   ensures  [value]    id == idview(old(c.next))
+//@   ensures  [advance]  idview(c.next) == succ(id)
+//@   ensures  [released] held[c.mutex] == 0
+//@   modifies c.next, held[c.mutex]
+//
+//@ func (c *IDCounter) Reset()
+//@   requires [unlocked] held[c.mutex] == 0
+//@   ensures  [one]      idview(c.next) == 1
+//@   ensures  [released] held[c.mutex] == 0
+//@   modifies c.next, held[c.mutex]
+//
+//@ lemma iter_closed(v0 int, k int)
+//@   requires 1 <= v0 && v0 <= 65535 && k >= 0
+//@   ensures  [closed] iter(v0, k) == (v0 - 1 + k) % 65535 + 1
+//@   by induction on k
+//
+//@ lemma distinct_window(v0 int, i int, j int)
+//@   requires 1 <= v0 && v0 <= 65535 && 0 <= i && i < j && j < 65535
+//@   ensures  [distinct] iter(v0, i) != iter(v0, j)
+//@   use iter_closed(v0, i), iter_closed(v0, j)
